@@ -16,6 +16,9 @@ Fixpoint join (sep : string) (l : list string) : string :=
   | x :: r => x ++ sep ++ join sep r
   end.
 
+Fixpoint concat_str (l : list string) : string :=
+  match l with [] => "" | x :: r => x ++ concat_str r end.
+
 Definition nat_of_ascii' (c : ascii) : nat := nat_of_ascii c.
 
 Definition is_upper (c : ascii) : bool :=
